@@ -233,7 +233,9 @@ def _work(chunk):
 def usage_tables(acc):
     """(f) usage report: one header line + one line per calendar day between the first and last reservation."""
     seams.install_clock()
-    for sc in itertools.islice(LY.L3('quick', ('fwd', 'bwd'), (True,), cals=['sparse', 'direct', 'none']), 0, None, 7):
+    gens = itertools.chain(itertools.islice(LY.L3('quick', ('fwd', 'bwd'), (True,), cals=['sparse', 'direct', 'none']), 0, None, 7),
+                           (s for s in LY.L1('quick', anchors=[MON]) if len(s.tasks) >= 2))
+    for sc in gens:
         ex = execute(sc)
         if ex.status != 'ok':
             continue
@@ -252,6 +254,8 @@ def usage_tables(acc):
         acc.count('nontrivial')
         if days > 1:
             acc.count('premise:multi-day-usage')
+        if rows[0].date != lo or rows[-1].date != hi:
+            acc.count('premise:first-or-last-row-not-the-extreme-day')
         if len(lines) != 1 + days:
             acc.violation('C20', 'usage/line-count', f'{len(lines)} lines for {days} days between first and last reservation', case)
             continue
